@@ -9,7 +9,7 @@ PID = 'C05'
 HANDLES_ABNORMAL = True
 PROFILES = ['debug', 'release']
 RULE = ('malformed-input stream for the decoding entry points, debug and release builds, panics caught: decode_data / decode_str on random '
-        'bytes, every codeword value after every latch, truncated valid streams, ECI designators of every form followed by every byte; '
+        'bytes, every codeword value after every latch, truncated valid streams, Base256 fields announcing 1..1556 bytes with 2 fewer .. 2 more codewords behind them, ECI designators of every form followed by every byte; '
         'decode_error on random words of every size, words with t or more leading zero syndromes (constructed by solving for them), words '
         'far outside the radius, the zero codeword with wrong codewords at the first / last data and error position of every interleaved block of every size; try_from_bits / DataMatrix::decode on random arrays, renderings of random codeword vectors (valid finder, '
         'garbage content) and wrong shapes; non-trivial = input rejected or accepted after real work (not an empty input); ECI designators of every form with every second / third codeword value; the regression corpus of former panic witnesses')
@@ -36,6 +36,22 @@ def gen_cases(rng, tier, ctx):
             add('decode_str %d,%d,%d' % (latch, b, rng.below(256)), 'after-latch')
             add('decode_data %d,%d,%d,%d' % (latch, rng.below(4), b, rng.below(256)), 'after-latch')
     cs += corpus.decoder_cases()
+    # Base256 fields whose announced length is just below / equal to / just above what follows, with one- and
+    # two-codeword length fields, short and long, alone and after ASCII codewords
+    def r255(v, pos):
+        return (v + (149 * pos) % 255 + 1) % 256
+    for L in (1, 2, 5, 248, 249, 250, 251, 252, 300, 499, 500, 501, 750, 1000, 1555, 1556):
+        for delta in (-2, -1, 0, 1, 2):
+            for pre in ([], [66, 67]):
+                follow = L + delta
+                if follow < 0 or len(pre) + 3 + follow > 1700:
+                    continue
+                cw = list(pre) + [231]
+                for v in ([L] if L < 250 else [L // 250 + 249, L % 250]):
+                    cw.append(r255(v, len(cw) + 1))
+                for _ in range(follow):
+                    cw.append(rng.below(256))
+                add(('decode_data ' if rng.chance(1, 2) else 'decode_str ') + fmt_list(cw), 'b256-length-vs-rest')
     cs += [dict(c, cat='rs-corpus') for c in corpus.rs_cases()]
     for c1 in (128, 191, 192, 207, 208, 127, 0, 255):
         for b in range(256):
